@@ -27,6 +27,7 @@ PYVC_MODULES = [
     "contracts.fermi_ops",
     "contracts.linalg_bonds",
     "contracts.fuseinfo",
+    "contracts.diagonal",
 ]
 
 BASE = [A_BUILTINS, A_INT, A_TERM, A_NUMPY, A_BOUNDED, A_USER]
